@@ -170,6 +170,31 @@ void h_pvalue_variance(void)
     ASSUME(vs_start_frequency(&vnss, 0) == 0);
     n = vnp->vn_systems * (vnp->vn_layout.vl_t_terms - 1);
     ASSUME(n <= 16);
+#ifdef PVALUE_LEAKAGE
+    /*
+     * leakage samples as ANY accumulation could have left them: count >= 2,
+     * sum and sum of squares finite and bounded and consistent only UP TO
+     * ROUNDING (sumsq >= |sum|^2 / n holds in exact arithmetic; identical
+     * samples round either way).  The library's own assertions
+     * "chisq is a number" and "chisq >= 0" are the obligations.
+     */
+    if (vnss.vnss_leakage_matrix != NULL) {
+	IN(double, l_sum);
+	IN(double, l_sumsq);
+	IN(int, l_count);
+	vnacal_new_leakage_term_t *lt = vnss.vnss_leakage_matrix[1];
+
+	ASSUME(lt != NULL);
+	ASSUME(l_count >= 2 && l_count <= 1000);
+	ASSUME(l_sum >= -1.0e6 && l_sum <= 1.0e6 && l_sumsq >= 0.0 && l_sumsq <= 1.0e12);
+	/* consistent up to rounding: sum |x|^2 >= |sum x|^2 / n within a relative 1e-9 */
+	ASSUME(l_sumsq * (double)l_count >= l_sum * l_sum * (1.0 - 1.0e-9));
+	lt->vnlt_sum = l_sum;
+	lt->vnlt_sumsq = l_sumsq;
+	lt->vnlt_count = l_count;
+	REACH("leakage samples made symbolic");
+    }
+#endif
     REACH("state prepared");
     (void)_vnacal_new_solve_calc_pvalue(&vnss, x, n);
     /* not reached under the cut point: the obligations are the ghost assertions inside */
